@@ -40,6 +40,8 @@ type cl struct {
 	floats   map[string]bool
 	bools    map[string]bool
 	nats     map[string]bool
+	strs     map[string]bool
+	ptrs     map[string]bool // further pointer-to-struct names read like `this` (`dest.a` -> `dest_a`); predicates only
 	results  []string // named results (floats), in order
 	hasErr   bool
 	nres     int // number of float results
@@ -114,6 +116,42 @@ func (c *cl) hook(e ast.Expr) (string, bool) {
 	}
 	if n, ok := c.nanRead(e); ok {
 		return "(optNum " + n + ")", true
+	}
+	if c.ptrs != nil {
+		if sel, ok := e.(*ast.SelectorExpr); ok {
+			if id, ok := sel.X.(*ast.Ident); ok && c.ptrs[id.Name] {
+				n := id.Name + "_" + sel.Sel.Name
+				if b, ok := info.Types[e].Type.Underlying().(*types.Basic); ok {
+					switch {
+					case b.Info()&types.IsFloat != 0:
+						c.floats[n] = true
+					case b.Info()&types.IsBoolean != 0:
+						c.bools[n] = true
+					case b.Info()&types.IsInteger != 0:
+						c.nats[n] = true
+					case b.Info()&types.IsString != 0:
+						c.strs[n] = true
+					default:
+						c.fail(e, "field %s of unsupported type", sel.Sel.Name)
+					}
+					return n, true
+				}
+				c.fail(e, "field %s of unsupported type", sel.Sel.Name)
+			}
+		}
+		if ix, ok := e.(*ast.IndexExpr); ok {
+			if sel, ok := ix.X.(*ast.SelectorExpr); ok {
+				if id, ok := sel.X.(*ast.Ident); ok && c.ptrs[id.Name] {
+					tv := info.Types[ix.Index]
+					if tv.Value == nil {
+						c.fail(e, "non-constant index")
+					}
+					n := fmt.Sprintf("%s_%s_%s", id.Name, sel.Sel.Name, tv.Value.ExactString())
+					c.floats[n] = true
+					return n, true
+				}
+			}
+		}
 	}
 	switch x := e.(type) {
 	case *ast.SelectorExpr:
@@ -644,6 +682,109 @@ func (t *tr) closure(name string, typ *ast.FuncType, body *ast.BlockStmt, pkgFun
 	fmt.Fprintf(&b, "/-- `%s` (%s); read from outside: %s -/\n", name, t.p.fset.Position(body.Pos()),
 		strings.Join(append(append(sorted(c.floats), sorted(c.nats)...), sorted(c.bools)...), " "))
 	fmt.Fprintf(&b, "def %s {α : Type} [RTrans α] %s: %s :=\n  %s%s\n\n", name, binders.String(), resTy, init.String(), bodyS)
+	return b.String(), nil
+}
+
+// predicate translates a bool-valued function or method that only READS its pointer-to-struct
+// receiver/parameters (`this.a`, `dest.datum_params[3]`, `this.nadGrids`) and integer parameters:
+// `compare_datums`, `checkDatumParams`. Every field read becomes a named parameter.
+func (t *tr) predicate(name string, fd *ast.FuncDecl) (res string, err error) {
+	defer func() {
+		if r := recover(); r != nil {
+			if u, ok := r.(untranslatable); ok {
+				err = fmt.Errorf("%s", u.msg)
+				return
+			}
+			panic(r)
+		}
+	}()
+	typ, body := fd.Type, fd.Body
+	c := &cl{t: t, name: name, lo: typ.Pos(), hi: body.End(), floats: map[string]bool{}, bools: map[string]bool{}, nats: map[string]bool{},
+		strs: map[string]bool{}, ptrs: map[string]bool{}, pkgFuncs: map[string]bool{}}
+	if fd.Recv != nil {
+		c.lo = fd.Recv.Pos()
+		for _, f := range fd.Recv.List {
+			if _, ok := f.Type.(*ast.StarExpr); !ok {
+				return "", fmt.Errorf("%s: receiver outside the subset", name)
+			}
+			for _, n := range f.Names {
+				c.ptrs[n.Name] = true
+			}
+		}
+	}
+	var posNat []string
+	scope := map[string]bool{}
+	for _, f := range typ.Params.List {
+		switch ty := f.Type.(type) {
+		case *ast.StarExpr:
+			for _, n := range f.Names {
+				c.ptrs[n.Name] = true
+			}
+		case *ast.Ident:
+			tv := t.p.info.Types[f.Type]
+			b, ok := tv.Type.Underlying().(*types.Basic)
+			if !ok || b.Info()&types.IsInteger == 0 {
+				return "", fmt.Errorf("%s: parameter type %s outside the subset", name, ty.Name)
+			}
+			for _, n := range f.Names {
+				posNat = append(posNat, n.Name)
+				scope[n.Name] = true
+			}
+		default:
+			return "", fmt.Errorf("%s: parameter type outside the subset", name)
+		}
+	}
+	if typ.Results == nil || len(typ.Results.List) != 1 || len(typ.Results.List[0].Names) != 0 {
+		return "", fmt.Errorf("%s: result outside the subset", name)
+	}
+	if id, ok := typ.Results.List[0].Type.(*ast.Ident); !ok || id.Name != "bool" {
+		return "", fmt.Errorf("%s: result is not bool", name)
+	}
+	// assignments are outside the subset of a predicate
+	bad := ""
+	ast.Inspect(body, func(n ast.Node) bool {
+		switch n.(type) {
+		case *ast.AssignStmt, *ast.IncDecStmt, *ast.ForStmt, *ast.RangeStmt, *ast.DeferStmt, *ast.GoStmt:
+			bad = fmt.Sprintf("%T", n)
+		}
+		return true
+	})
+	if bad != "" {
+		return "", fmt.Errorf("%s: statement %s outside the subset of a predicate", name, bad)
+	}
+	c.nres = 1
+	old := t.hook
+	t.hook = c.hook
+	defer func() { t.hook = old }()
+	bodyS := c.block(body.List, cctx{scope: scope}, "  ")
+	sorted := func(m map[string]bool) []string {
+		var l []string
+		for k := range m {
+			l = append(l, k)
+		}
+		sort.Strings(l)
+		return l
+	}
+	var binders strings.Builder
+	for _, g := range []struct {
+		m  map[string]bool
+		ty string
+	}{{c.floats, "α"}, {c.nats, "Nat"}, {c.bools, "Bool"}, {c.strs, "String"}} {
+		if l := sorted(g.m); len(l) > 0 {
+			var ids []string
+			for _, v := range l {
+				ids = append(ids, leanIdent(v))
+			}
+			fmt.Fprintf(&binders, "(%s : %s) ", strings.Join(ids, " "), g.ty)
+		}
+	}
+	if len(posNat) > 0 {
+		fmt.Fprintf(&binders, "(%s : Nat) ", strings.Join(posNat, " "))
+	}
+	var b strings.Builder
+	fmt.Fprintf(&b, "/-- `%s` (%s); read from outside: %s -/\n", name, t.p.fset.Position(body.Pos()),
+		strings.Join(append(append(append(sorted(c.floats), sorted(c.nats)...), sorted(c.bools)...), sorted(c.strs)...), " "))
+	fmt.Fprintf(&b, "def %s {α : Type} [RTrans α] %s: Bool :=\n  %s\n\n", name, binders.String(), bodyS)
 	return b.String(), nil
 }
 
